@@ -449,9 +449,13 @@ def r04_9(ctx):
     construct = "Parser.kconfigize_expr/$(NAME): macro before environment (as in parser 1)"
     ok = False
     if var_tests and env_tests:
-        # the environment test of the $(..) arm must be in the else-chain of the macro test
-        v = var_tests[0]
-        ok = any(e is x for e in env_tests for x in ast.walk(v) if any(x is y for o in v.orelse for y in ast.walk(o)))
+        # the environment test of the $(..) arm is only reached when the macro lookup failed (elif chain or early return)
+        fl2 = Flow(k2.node).run()
+        vkey = ast.unparse(var_tests[0].test)
+        for e in env_tests:
+            gs = fl2.guards_at(e.test) or set()
+            if any(k == vkey and not pol for k, pol in gs):
+                ok = True
     (ctx.ok(construct, k2.loc(var_tests[0])) if ok else ctx.bad(construct, "the environment is consulted before the Kconfig macros: a macro that shares its name with an "
                                                                 "environment variable expands differently in the two parsers", k2.loc()))
     f1 = repo.funcs.get(f"{CORE}:Kconfig._fn_val")
